@@ -1,0 +1,8 @@
+//go:build !verif
+
+package timex
+
+import "time"
+
+// verifNow is the disabled form of the verification clock hook (build tag verif).
+func verifNow() (time.Duration, bool) { return 0, false }
